@@ -447,6 +447,10 @@ def check_c07(pid, tier, replay):
             song = gen_seq.random_song(rng, maxev=10 if tier == "quick" else 24,
                                        ntracks=None if tier == "quick" else rng.choice([1, 2, 3, 4, 6, 8]))
             hs.append(gen_seq.play_history(rng, song, rng.choice(["plain", "plain", "gating"])))
+        # audio-driven playback (short songs: rendering is real)
+        for i in range(40 if tier == "quick" else 400):
+            song = gen_seq.random_song(rng, maxev=6, ntracks=rng.choice([1, 2]))
+            hs.append(gen_seq.play_history(rng, song, "audio"))
         return hs
     return run_seq_family(pid, tier, replay, mk)
 
